@@ -32,6 +32,12 @@ def base_ctx():
     return Ctx([Affine.sym('numiter') - Affine.const(1), Affine.sym('n') - Affine.const(1)])
 
 
+def kfunc(repo, q):
+    """the function with behaviour-preserving loop spellings normalised (sa/normal.py)"""
+    from ..normal import wrap, enumerate_to_range
+    return wrap(repo.func(q), enumerate_to_range)
+
+
 def krylov_rules(chk, repo, P='C14'):
     chk.rule(f'{P}.R1', 'return shapes: on every return path of lanczos_iteration (full and early) '
                        'len(alpha) = len(beta) + 1 = V.shape[1] and V.shape[0] = len(vstart); on every return path of '
@@ -49,7 +55,7 @@ def krylov_rules(chk, repo, P='C14'):
     records = {}
     n_ret = 0
     for short, q in PRODUCERS.items():
-        fi = repo.func(q)
+        fi = kfunc(repo, q)
         obs = []
 
         def report(kind, node, ok, text, fi=fi, obs=obs):
@@ -116,7 +122,7 @@ def krylov_rules(chk, repo, P='C14'):
     # consumers against every return record
     n_cons = 0
     for q in (CONSUMERS if P != 'C14' else []):
-        fi = repo.func(q)
+        fi = kfunc(repo, q)
         used = {c.func.id for c in ast.walk(fi.node) if isinstance(c, ast.Call) and isinstance(c.func, ast.Name)
                 and c.func.id in PRODUCERS}
         if not used:
@@ -177,7 +183,7 @@ def linearity_rule(chk, repo, rid, consumers=True):
                   'exactly once on every path, including shortcuts for small Krylov spaces')
     n = 0
     for q in ('krylov.lanczos_iteration', 'krylov.arnoldi_iteration'):
-        fi = repo.func(q)
+        fi = kfunc(repo, q)
         v = fi.params[1]
         nrm = [s_.targets[0].id for s_ in fi.node.body if isinstance(s_, ast.Assign) and isinstance(s_.targets[0], ast.Name)
                and norm(s_.value) in (f'np.linalg.norm({v})',)]
@@ -192,7 +198,7 @@ def linearity_rule(chk, repo, rid, consumers=True):
     if not consumers:
         chk.floor(rid, n, 2, hard_min=2)
         return n
-    fi = repo.func('krylov.expm_krylov')
+    fi = kfunc(repo, 'krylov.expm_krylov')
     vname = fi.params[1]
 
     def deg(e, env):
@@ -263,7 +269,7 @@ def bookkeeping_rule(chk, repo, rid):
                   'which is what makes the projected map equal the returned matrix')
     n = 0
     for q in ('krylov.lanczos_iteration', 'krylov.arnoldi_iteration'):
-        fi = repo.func(q)
+        fi = kfunc(repo, q)
         resid = {norm(s_.targets[0]) for s_ in ast.walk(fi.node) if isinstance(s_, ast.Assign) and
                  isinstance(s_.value, ast.Call) and norm(s_.value.func) == fi.params[0] and isinstance(s_.targets[0], ast.Name)}
         outer = [l for l in fi.node.body if isinstance(l, ast.For)]
@@ -309,7 +315,7 @@ def dtype_rule(chk, repo, rid):
                   '.real) is allocated with dtype=complex, independently of the dtype of the start vector')
     n = 0
     for q in ('krylov.lanczos_iteration', 'krylov.arnoldi_iteration'):
-        fi = repo.func(q)
+        fi = kfunc(repo, q)
         tainted = set()
         changed = True
         while changed:
